@@ -11,25 +11,6 @@ import Proofs.C01
 namespace TM
 namespace Final
 
-/-! ### the parametrised copy with both switches off is the code as it is -/
-
-mutual
-theorem finalCheckV_asis (D : Defs) (E : List Nat) :
-    ∀ t, finalCheckV Variant.asIs D E t = finalCheck D E t
-  | .node s kids => by
-    simp only [finalCheckV, finalCheck, finalLoopV_asis D E kids]
-    simp [Variant.asIs]
-theorem finalLoopV_asis (D : Defs) (E : List Nat) :
-    ∀ ts cbs all isf, finalLoopV Variant.asIs D E ts cbs all isf = finalLoop D E ts cbs all isf
-  | [], _, _, _ => by simp only [finalLoopV, finalLoop]
-  | t :: ts, cbs, all, isf => by
-    simp only [finalLoopV, finalLoop, finalCheckV_asis D E t, finalLoopV_asis D E ts]
-end
-
-theorem finalCheckRootV_asis (D : Defs) (E : List Nat) (roots : List Tree) :
-    finalCheckRootV Variant.asIs D E roots = finalCheckRoot D E roots := by
-  simp only [finalCheckRootV, finalCheckRoot, finalLoopV_asis]
-
 /-! ### facts about the spec alone -/
 
 theorem firing_ne_of_fires (D : Defs) (E : List Nat) (t : Tree) (h : fires D E t = true) :
@@ -119,24 +100,14 @@ end
 /-! ### the code against the spec -/
 
 mutual
-/-- `_final_check` (variant `v`) on a subtree = (states that fire, children first; counts as final),
-provided the defects that `v` leaves in cannot show in this subtree -/
-theorem finalCheckV_spec (v : Variant) (D : Defs) (E : List Nat) :
-    ∀ t, (v.leakFixed = true ∨ noLeak D t = true) → (v.compoundFixed = true ∨ noCompound D E t = true) →
-      downClosed E t = true → finalCheckV v D E t = (firing D E t, fin D t)
-  | .node s kids, hL, hC, hD => by
-    have hLk : v.leakFixed = true ∨ noLeakL D kids = true := by
-      rcases hL with h | h
-      · exact Or.inl h
-      · simp only [noLeak, Bool.and_eq_true] at h; exact Or.inr h.2
-    have hCk : v.compoundFixed = true ∨ noCompoundL D E kids = true := by
-      rcases hC with h | h
-      · exact Or.inl h
-      · simp only [noCompound, Bool.and_eq_true] at h; exact Or.inr h.2
+/-- `_final_check` on a subtree = (states that fire, children first; counts as final) -/
+theorem finalCheck_spec (D : Defs) (E : List Nat) :
+    ∀ t, downClosed E t = true → finalCheck D E t = (firing D E t, fin D t)
+  | .node s kids, hD => by
     have hDk : downClosedL E kids = true := by
       simp only [downClosed, Bool.and_eq_true] at hD; exact hD.2
-    have hloop := finalLoopV_spec v D E kids hLk hCk hDk [] true false
-    simp only [finalCheckV, hloop, List.nil_append, Bool.true_and]
+    have hloop := finalLoop_spec D E kids hDk [] true
+    simp only [finalCheck, hloop, List.nil_append, Bool.true_and]
     cases kids with
     | nil =>
       cases hfin : D.final s <;> cases hE : entered E s <;> simp [firing, firingL, fires, fin, hfin, hE, firesAny]
@@ -148,20 +119,7 @@ theorem finalCheckV_spec (v : Variant) (D : Defs) (E : List Nat) :
         have hfin : fin D (.node s (k :: ks)) = false := by simp [fin, hfa]
         have hfires : fires D E (.node s (k :: ks)) = (D.final s && entered E s) := by
           simp [fires, hfa]
-        have hleak : (if v.leakFixed = true then false else lastFin D (k :: ks) false) = false := by
-          rcases hL with h | h
-          · simp [h]
-          · simp only [noLeak, leakAt, hfa, Bool.not_false, Bool.and_true, Bool.and_eq_true,
-              Bool.not_eq_true'] at h
-            simp [h.1]
-        have hcomp : (v.compoundFixed && D.final s && entered E s) = (D.final s && entered E s) := by
-          rcases hC with h | h
-          · simp [h]
-          · simp only [noCompound, compoundAt, hfa, List.isEmpty_cons, Bool.not_false, Bool.and_true,
-              Bool.and_eq_true, Bool.not_eq_true'] at h
-            have h1 := h.1
-            cases hf : D.final s <;> cases he : entered E s <;> simp [hf, he] at h1 ⊢
-        rw [hleak, hcomp, hfin]
+        rw [hfin]
         simp only [firing, hfires]
         cases D.final s && entered E s <;> simp
       · -- all children count as final
@@ -198,42 +156,23 @@ theorem finalCheckV_spec (v : Variant) (D : Defs) (E : List Nat) :
         rw [hiff, hfin]
         simp only [firing]
         cases fires D E (.node s (k :: ks)) <;> simp
-theorem finalLoopV_spec (v : Variant) (D : Defs) (E : List Nat) :
-    ∀ ts, (v.leakFixed = true ∨ noLeakL D ts = true) → (v.compoundFixed = true ∨ noCompoundL D E ts = true) →
-      downClosedL E ts = true → ∀ cbs all isf,
-      finalLoopV v D E ts cbs all isf = (cbs ++ firingL D E ts, all && finAll D ts, lastFin D ts isf)
-  | [], _, _, _, cbs, all, isf => by simp [finalLoopV, firingL, finAll, lastFin]
-  | t :: ts, hL, hC, hD, cbs, all, isf => by
-    have hL1 : v.leakFixed = true ∨ noLeak D t = true := by
-      rcases hL with h | h
-      · exact Or.inl h
-      · simp only [noLeakL, Bool.and_eq_true] at h; exact Or.inr h.1
-    have hL2 : v.leakFixed = true ∨ noLeakL D ts = true := by
-      rcases hL with h | h
-      · exact Or.inl h
-      · simp only [noLeakL, Bool.and_eq_true] at h; exact Or.inr h.2
-    have hC1 : v.compoundFixed = true ∨ noCompound D E t = true := by
-      rcases hC with h | h
-      · exact Or.inl h
-      · simp only [noCompoundL, Bool.and_eq_true] at h; exact Or.inr h.1
-    have hC2 : v.compoundFixed = true ∨ noCompoundL D E ts = true := by
-      rcases hC with h | h
-      · exact Or.inl h
-      · simp only [noCompoundL, Bool.and_eq_true] at h; exact Or.inr h.2
+theorem finalLoop_spec (D : Defs) (E : List Nat) :
+    ∀ ts, downClosedL E ts = true → ∀ cbs all,
+      finalLoop D E ts cbs all = (cbs ++ firingL D E ts, all && finAll D ts)
+  | [], _, cbs, all => by simp [finalLoop, firingL, finAll]
+  | t :: ts, hD, cbs, all => by
     simp only [downClosedL, Bool.and_eq_true] at hD
-    simp only [finalLoopV, finalCheckV_spec v D E t hL1 hC1 hD.1,
-      finalLoopV_spec v D E ts hL2 hC2 hD.2, firingL, finAll, lastFin, List.append_assoc, Bool.and_assoc]
+    simp only [finalLoop, finalCheck_spec D E t hD.1, finalLoop_spec D E ts hD.2, firingL, finAll,
+      List.append_assoc, Bool.and_assoc]
 end
 
 /-- the root call: never the AttributeError, and exactly the expected owners -/
-theorem finalCheckRootV_spec (v : Variant) (D : Defs) (E : List Nat) (roots : List Tree)
-    (hL : v.leakFixed = true ∨ noLeakL D roots = true)
-    (hC : v.compoundFixed = true ∨ noCompoundL D E roots = true)
+theorem finalCheckRoot_spec (D : Defs) (E : List Nat) (roots : List Tree)
     (hW : enteredWF E roots = true) :
-    finalCheckRootV v D E roots = .ok (expected D E roots) := by
+    finalCheckRoot D E roots = .ok (expected D E roots) := by
   simp only [enteredWF, Bool.and_eq_true] at hW
-  have hloop := finalLoopV_spec v D E roots hL hC hW.1 [] true false
-  simp only [finalCheckRootV, hloop, List.nil_append, Bool.true_and, expected, machineFires]
+  have hloop := finalLoop_spec D E roots hW.1 [] true
+  simp only [finalCheckRoot, hloop, List.nil_append, Bool.true_and, expected, machineFires]
   cases roots with
   | nil => simp [firingL]
   | cons r rs =>
